@@ -52,12 +52,16 @@ inductive Op
   | scan (n : Nat) (active : List Bool)
   | reload          -- Serialize, Load
   | relock          -- Lock, Unlock
+  | lock            -- Lock (bip44 wallets keep deriving addresses while locked; GuardUpdate for the others)
+  | unlock          -- Unlock (bip44: the secrets of addresses derived while locked are filled in)
 
 def apply (step : Seed → Seed × Key) (w : DW Seed Key) : Op → DW Seed Key
   | .gen n => generate step w n
   | .scan n a => scan step w n a
   | .reload => w
   | .relock => w
+  | .lock => w
+  | .unlock => w
 
 def run (step : Seed → Seed × Key) (seed : Seed) (ops : List Op) : DW Seed Key :=
   ops.foldl (apply step) (DW.init seed)
@@ -83,6 +87,8 @@ def capply (child : Nat → Pub) (w : CW Pub) : Op → CW Pub
   | .scan n a => cscan child w n a
   | .reload => w
   | .relock => w
+  | .lock => w
+  | .unlock => w
 
 def crun (child : Nat → Pub) (ops : List Op) : CW Pub := ops.foldl (capply child) ⟨[]⟩
 
